@@ -13,7 +13,7 @@ from harness import common
 PROP = "C14"
 LEAN_MODULE = "Ztr.Props.C14Tree"
 LEAN_DEPS = ["Ztr.Props.C14"]
-THEOREMS = ["Ztr.Discovery.C14_enum_independent", "Ztr.Discovery.C14_enum_independent_roots", "Ztr.Discovery.C14_once", "Ztr.Discovery.C14_enum_independent_files",
+THEOREMS = ["Ztr.Discovery.C14_enum_independent", "Ztr.Discovery.C14_enum_independent_roots", "Ztr.Discovery.C14_package_once", "Ztr.Discovery.C14_package_restricts", "Ztr.Discovery.C14_import_gate_S", "Ztr.Discovery.findTestFilesS_none", "Ztr.Discovery.C14_once", "Ztr.Discovery.C14_enum_independent_files",
             "Ztr.Discovery.C14_enum_independent_dirs", "Ztr.Discovery.C14_exact", "Ztr.Discovery.C14_winner_spec",
             "Ztr.Discovery.C14_import_gate", "Ztr.Discovery.C14_import_once", "Ztr.Discovery.C14_module_name_has_package",
             "Ztr.Discovery.C14_ignore_folders"]
@@ -24,12 +24,13 @@ RULE = ("random directory trees (depth <= 4): identifier / non-identifier / igno
         "--usecompiled; the real find_test_files runs in-process and a --list-tests CLI run records which modules were "
         "imported (each module's top level appends its name to a trace). Non-trivial = at least 2 yielded files; "
         "distinct by (tree, options)")
-ASSUMPTIONS = ["--package/-s is not modelled; symlinked directories are materialised (20% of sub-directories) and must behave like real ones", "regular expressions are evaluated by the harness"]
+ASSUMPTIONS = ["-s/--package: which directories a package name resolves to (`__path__`) is Python's import system, asked in a worker process and handed to the model", "symlinked directories are materialised (20% of sub-directories) and must behave like real ones", "regular expressions are evaluated by the harness"]
 TRUSTED = ["os.walk / importlib (the tree is supplied to the model by the harness)"]
 
 FILES = ["tests.py", "test_a.py", "test_b.py", "testx.py", "ftests.py", "helper.py", "__init__.py", "tests.pyc",
          "test_c.pyc", "data.txt", "tests.txt", ".py", "test_b.pyc", "conftest.py"]
-DIRS = ["tests", "pkg", "sub", "ftests", "not-ident", ".git", "node_modules", "__pycache__", "CVS", "1bad", "_ok", "Tests"]
+DIRS = ["tests", "pkg", "sub", "ftests", "not-ident", ".git", "node_modules", "__pycache__", "CVS", "1bad", "_ok", "Tests",
+        "pkgx", "sub2"]
 
 MODULE_SRC = """import os, json
 _t = os.environ.get("ZTR_TRACE")
@@ -84,6 +85,15 @@ def materialize(tree, d, rng, store=None):
             os.symlink(target, os.path.join(d, it[0]))
         else:
             materialize(it[1], os.path.join(d, it[0]), rng, store)
+
+
+class random_no_links:
+    """a stand-in for the generator that never creates a symbolic link (and shuffles nothing)"""
+    def random(self):
+        return 1.0
+
+    def shuffle(self, items):
+        pass
 
 
 def jtree(tree):
@@ -152,13 +162,22 @@ def run(ctx, n=None, module_gate_only=False):
             if not module_gate_only or any(f.endswith(".py") and f != "__init__.py" for f in all_names(tree)):
                 break
             tree = gen_tree(rng, rng.choice([2, 3, 4]))
+        directed_pkgs = None
+        if not module_gate_only and idx < 6:
+            # directed: packages whose directory names are character-wise prefixes of each other, named with -s in
+            # every order
+            leaf = lambda: {"files": ["__init__.py", "tests.py", "test_a.py"], "subs": []}  # noqa: E731
+            tree = {"files": ["tests.py"], "subs": [["pkg", leaf()], ["pkgx", leaf()], ["sub", {"files": ["tests.py"], "subs": [["sub2", leaf()], ["sub", leaf()]]}]]}
+            directed_pkgs = [[("pkg",), ("pkgx",)], [("pkgx",), ("pkg",)], [("sub",), ("sub", "sub2"), ("sub", "sub")],
+                             [("sub", "sub"), ("sub",)], [("pkg",), ("pkg",), ("pkgx",)], [("sub", "sub2"), ("pkgx",), ("pkg",)]][idx]
         d = os.path.join(ctx.tmp, "disc%05d" % idx)
-        materialize(tree, d, rng)
+        materialize(tree, d, rng if directed_pkgs is None else random_no_links())
         dirs = [p for p in all_dirs(tree)]
-        roots = [()] if rng.random() < 0.5 else [rng.choice(dirs) for _ in range(rng.choice([1, 2, 3]))]
+        roots = [()] if (rng.random() < 0.5 or directed_pkgs) else [rng.choice(dirs) for _ in range(rng.choice([1, 2, 3]))]
         if rng.random() < 0.2:
             roots.append(roots[0])
         args = ["prog"]
+        orig_roots = list(roots)
         for k, r in enumerate(roots):
             args += ["--path" if k % 2 == 0 else "--test-path", os.path.join(d, *r) if r else d]
         # get_options: test_path = [--test-path entries] + [--path entries]
@@ -192,9 +211,46 @@ def run(ctx, n=None, module_gate_only=False):
             args.append("--usecompiled")
         if mfilter:
             args += ["-m", mfilter]
+        # -s/--package: the walk starts at the directories of the named packages (first --path root on sys.path)
+        pkg_rel = None
+        path_roots = [r for k, r in enumerate(orig_roots) if k % 2 == 0]
+        if directed_pkgs is not None:
+            for c_ in directed_pkgs:
+                args += ["-s", ".".join(c_)]
+            pkg_rel = directed_pkgs
+        elif path_roots and not module_gate_only and rng.random() < 0.3:
+            top = path_roots[0]
+            cands = [p[len(top):] for p in dirs if len(p) > len(top) and p[:len(top)] == top and len(p) - len(top) <= 2
+                     and all(re.match(r"[_a-z]\w*$", c_, re.I) for c_ in p[len(top):])]
+            if cands:
+                chosen = [rng.choice(cands) for _ in range(rng.choice([1, 2, 2, 3]))]
+                if rng.random() < 0.3:
+                    chosen.append(chosen[0])
+                for c_ in chosen:
+                    args += ["-s", ".".join(c_)]
+                pkg_rel = chosen
         with contextlib.redirect_stdout(io.StringIO()):
             options = get_options(list(args), [])
-        real_files = [os.path.relpath(f, d) for f, pkg in find_test_files(options)]
+        pkg_dirs = None
+        if pkg_rel is None:
+            real_files = [os.path.relpath(f, d) for f, pkg in find_test_files(options)]
+        else:
+            pr = subprocess.run([common.PY, os.path.join(common.VERIF, "harness", "discovery_worker.py")],
+                                input=json.dumps({"args": args[1:]}).encode(), cwd=ctx.tmp,
+                                stdout=subprocess.PIPE, stderr=subprocess.PIPE, timeout=120)
+            try:
+                wres = json.loads(pr.stdout.decode())
+            except Exception:  # noqa: BLE001
+                wres = {"error": pr.stderr.decode()[-400:]}
+            if "error" in wres:
+                # a package Python cannot import (shadowed by a module of the same name, ...): not a case
+                shutil.rmtree(d, ignore_errors=True)
+                shutil.rmtree(d.rstrip("/") + "_store", ignore_errors=True)
+                continue
+            real_files = [os.path.relpath(f, d) for f, pkg in wres["files"]]
+            # where Python found the packages: symlinked directories keep their place in the tree (abspath, not realpath)
+            pkg_dirs = [tuple(c_ for c_ in os.path.relpath(p_, d).split("/") if c_ not in (".", ""))
+                        for ps in wres["pkg_dirs"] for p_ in ps]
         # imports: a real --list-tests run
         trace = os.path.join(d, "trace.jsonl")
         env = dict(os.environ)
@@ -240,9 +296,10 @@ def run(ctx, n=None, module_gate_only=False):
              "testsPat": [enc(s) for s in stems if tp(s)], "testFilePat": [enc(s) for s in stems if tfp(s)],
              "ignoreDir": [enc(s) for s in options.ignore_dir],
              "ignoreFolders": [enc(s) for s in (".git", "node_modules", "__pycache__")],
-             "usecompiled": usec, "acceptedModules": []}
+             "usecompiled": usec, "acceptedModules": [],
+             "packageDirs": None if pkg_dirs is None else [[enc(c) for c in base_path + list(pd_)] for pd_ in pkg_dirs]}
         infos.append((tree, roots, args[1:], real_files, imported, d, base_path, options, acc, usec,
-                      failed_imports if imported is not None else None))
+                      failed_imports if imported is not None else None, pkg_dirs))
         queries.append(q)
         shutil.rmtree(d, ignore_errors=True)
         shutil.rmtree(d.rstrip("/") + "_store", ignore_errors=True)
@@ -253,9 +310,12 @@ def run(ctx, n=None, module_gate_only=False):
         mods = [m for cs in ans.get("candidates", []) for m in cs]
         q["acceptedModules"] = [m for m in mods if acc(".".join("".join(chr(c) for c in comp) for comp in m))]
     answers = ctx.driver.batch(queries)
-    for (tree, roots, args, real_files, imported, d, base_path, options, acc, usec, failed_imports), ans in zip(infos, answers):
+    for (tree, roots, args, real_files, imported, d, base_path, options, acc, usec, failed_imports, pkg_dirs), ans in zip(infos, answers):
         case = {"tree": tree, "roots": ["/".join(r) for r in roots], "args": [a.replace(d, "<root>") for a in args],
-                "real_files": real_files, "imported": imported, "model": ans}
+                "real_files": real_files, "imported": imported, "model": ans,
+                "package_dirs": None if pkg_dirs is None else ["/".join(p_) for p_ in pkg_dirs]}
+        if pkg_dirs is not None:
+            ctx.bump("--package")
         ctx.count((str(tree), tuple(roots), tuple(case["args"])), nontrivial=len(real_files) >= 2,
                   sample={"roots": case["roots"], "args": case["args"], "files": real_files[:6]})
         ctx.bump("files=%d" % min(len(real_files), 6))
@@ -266,8 +326,19 @@ def run(ctx, n=None, module_gate_only=False):
         env = {"tp": options.tests_pattern, "tfp": options.test_file_pattern, "ignore": set(options.ignore_dir),
                "usecompiled": usec}
         want = []
-        for r in roots:
+        if pkg_dirs is None:
+            start = list(roots)
+        else:
+            # "lying outside --package are never imported": the walk starts at the directories of the named packages
+            # that lie under (or are) a search path, each once
+            start = []
+            for pd_ in pkg_dirs:
+                if pd_ not in start and any(pd_[:len(r)] == tuple(r) for r in roots):
+                    start.append(pd_)
+        for r in start:
             st = subtree(tree, r)
+            if st is None:
+                continue
             base = r[-1] if r else os.path.basename(d)
             for p in statement_files(st, base, env, tuple(r)):
                 if p not in want:
@@ -304,6 +375,8 @@ def run(ctx, n=None, module_gate_only=False):
             attempted = set(ok) | set(failed_imports)
             # a failed import of `a.b` may import the module `a` on the way (Python's own doing): the order of the
             # recorded imports is compared only when nothing failed
+            parents = {".".join(f_.split(".")[:k]) for f_ in (failed_imports or []) for k in range(1, len(f_.split(".")))}
+            attempted -= (parents - set(mimp_once))
             if set(mimp_once) != attempted or (not failed_imports and [m for m in mimp_once if m in ok] != ok):
                 ctx.drift("discovery.imports", "model imports %r, real imported %r + failed %r" % (
                     mimp_once, ok, failed_imports), case)
